@@ -9,7 +9,7 @@ patch there, run `ZX_REPO=<scratch> ./check <property>` and report whether a VIO
 import json, os, shutil, subprocess, sys
 
 ROOT = os.path.dirname(os.path.dirname(os.path.abspath(__file__)))
-SCRATCH = "/tmp/zx-seeded-run"
+SCRATCH = os.environ.get("ZX_SEEDED_SCRATCH", "/tmp/zx-seeded-run")  # set per agent: concurrent runs must not share it
 
 
 def main():
